@@ -95,6 +95,7 @@ CFG = {
         "Swat4.C01.decimal_eq_renderInt",
         "Swat4.C01.facts_browser_read_buffer",
         "Swat4.C01.facts_partial_ops_browser",
+        "Swat4.C01.recoverRnd_reply",
     ],
     # proved in the Lean files and used by other proofs, but NOT audited as property theorems: each is a
     # read-back of a definition, glue between two names, true by type, or a corollary of an audited theorem
@@ -146,7 +147,7 @@ CFG = {
         "generated Facts.lean section `browsing` (whitelist via go/ast cross-checked against the compiled filter.IsQueryField, field cap, minimum length, Info schema via reflection with params.GetParamName)",
     ],
     "manifest": {
-        "text": "Lean theorem C01_main: for every well-formed list request (encodeReq/WfReq) with 1..MaxAllowedNumberOfFields known fields, every requester address, every list of selected servers (well-typed records, none with the all-ones address) and every 23 cipher header draws, the model of Handler.process replies, and the reply decrypted by the SDK reference cipher (C02) and decoded by the independently written SDK framing decoder is exactly the promised list: requester IPv4 and port mod 65536, the known fields in request order, one entry per selected server with IPv4, uint16 query port and the stored value of every declared field (ints decimal, bools 0/1, empty for a missing field, NUL bytes dropped), end marker, nothing after it. C01_main_bounded: the same with the handler's 2048-byte read explicit, for requests of at most 2048 bytes; C01_oversize_no_reply: a well-formed request longer than 2048 bytes fails NewRequest's length test (ErrInvalidRequestFormat) and gets no reply. sdkDecode_pack: the same for packServers alone, any <=255 NUL-free field names and any schema with distinct names; sdkDecode_pack_marshalled: without the typing hypothesis (servers whose Info does not marshal are skipped). parse_encodeReq: NewRequest on a well-formed request filters through the whitelist before the cap, in request order. parse_total: NewRequest never indexes/slices out of range and its field loop terminates, for every input. BrowserReqBridge.newRequest_eq: the model of NewRequest used here and the independently written one used by C06 (BrowserReq06.newRequest) return the same outcome class and field list on every byte string. browser_end_to_end (C01 composed with C03; Lemmas/BrowserEndToEnd.lean: browserHandle = 2048-byte read, NewRequest, query of the request's filter string (blank when empty or rejected), listservers with status master over a registry of stored servers, packServers, Encrypt): for every well-formed request r of at most 2048 bytes with 1..MaxAllowedNumberOfFields known fields, every registry, clock, liveness, requester and header draws (matching records of the details.Info shape, none with the all-ones address) the handler replies and the reply decrypts+decodes to exactly expectedList for the requester, r's known fields in order and the stored servers recs.filter(matching) — status master, refreshed at or after now-liveness, every clause of r.filter satisfied (C03's `selected`) — in registry order, with the stored field values (entryOf_eq: looked up by name in the record the filter read). browser_end_to_end_any_order: the same for any order the repository returns its result in (Go map iteration): the listing is a permutation of recs.filter(matching). Corollaries for any order: browser_lists_only_matching (every decoded entry is the entry of a matching stored server), browser_lists_all_matching (every matching server's entry is present, the entry count equals the number of matching servers, entry multiplicities agree, exactly once when matching servers have distinct entries), browser_malformed_filter_lists_all_live (a rejected filter string lists all live master servers). E2EExample.*: a concrete four-server registry and filtered request evaluated by the kernel (plaintext decode computed; the cipher step via the theorem). facts_ok/facts_parse_ok: the side conditions on the generated whitelist, cap, minimum length and Info schema. The model is tied to the code by differential runs of browsing.NewRequest and of the real browser.Handler over loopback TCP against registries planted through the real repository (the driver runs browserHandle itself: non-empty filters, stale, never-refreshed and non-master records, requests up to 4000 bytes against the 2048-byte read); the SDK decoder is also run on the Go bytes.",
+        "text": "Lean theorem C01_main: for every well-formed list request (encodeReq/WfReq) with 1..MaxAllowedNumberOfFields known fields, every requester address, every list of selected servers (well-typed records, none with the all-ones address) and every 23 cipher header draws, the model of Handler.process replies, and the reply decrypted by the SDK reference cipher (C02) and decoded by the independently written SDK framing decoder is exactly the promised list: requester IPv4 and port mod 65536, the known fields in request order, one entry per selected server with IPv4, uint16 query port and the stored value of every declared field (ints decimal, bools 0/1, empty for a missing field, NUL bytes dropped), end marker, nothing after it. C01_main_bounded: the same with the handler's 2048-byte read explicit, for requests of at most 2048 bytes; C01_oversize_no_reply: a well-formed request longer than 2048 bytes fails NewRequest's length test (ErrInvalidRequestFormat) and gets no reply. sdkDecode_pack: the same for packServers alone, any <=255 NUL-free field names and any schema with distinct names; sdkDecode_pack_marshalled: without the typing hypothesis (servers whose Info does not marshal are skipped). parse_encodeReq: NewRequest on a well-formed request filters through the whitelist before the cap, in request order. parse_total: NewRequest never indexes/slices out of range and its field loop terminates, for every input. BrowserReqBridge.newRequest_eq: the model of NewRequest used here and the independently written one used by C06 (BrowserReq06.newRequest) return the same outcome class and field list on every byte string. browser_end_to_end (C01 composed with C03; Lemmas/BrowserEndToEnd.lean: browserHandle = 2048-byte read, NewRequest, query of the request's filter string (blank when empty or rejected), listservers with status master over a registry of stored servers, packServers, Encrypt): for every well-formed request r of at most 2048 bytes with 1..MaxAllowedNumberOfFields known fields, every registry, clock, liveness, requester and header draws (matching records of the details.Info shape, none with the all-ones address) the handler replies and the reply decrypts+decodes to exactly expectedList for the requester, r's known fields in order and the stored servers recs.filter(matching) — status master, refreshed at or after now-liveness, every clause of r.filter satisfied (C03's `selected`) — in registry order, with the stored field values (entryOf_eq: looked up by name in the record the filter read). browser_end_to_end_any_order: the same for any order the repository returns its result in (Go map iteration): the listing is a permutation of recs.filter(matching). Corollaries for any order: browser_lists_only_matching (every decoded entry is the entry of a matching stored server), browser_lists_all_matching (every matching server's entry is present, the entry count equals the number of matching servers, entry multiplicities agree, exactly once when matching servers have distinct entries), browser_malformed_filter_lists_all_live (a rejected filter string lists all live master servers). E2EExample.*: a concrete four-server registry and filtered request evaluated by the kernel (plaintext decode computed; the cipher step via the theorem). recoverRnd_reply: the driver-only reconstruction of the 23 cipher header draws from the reply (Drv.C01.recoverRnd under the game key and the parsed challenge) succeeds on every reply the handler model produces for unknown draws and the handler model run with the reconstructed draws answers exactly that reply (C02.recoverRnd_encrypt lifted to browserHandle). facts_ok/facts_parse_ok: the side conditions on the generated whitelist, cap, minimum length and Info schema. The model is tied to the code by differential runs of browsing.NewRequest and of the real browser.Handler over loopback TCP against registries planted through the real repository (the driver runs browserHandle itself: non-empty filters, stale, never-refreshed and non-master records, requests up to 4000 bytes against the 2048-byte read); the SDK decoder is also run on the Go bytes.",
         "level_note": "Trusted: Lean kernel; axioms propext, Quot.sound, Classical.choice; the SDK framing/cipher references as the definition of 'stock client'; the finite differential run as evidence that Model/Browsing.lean behaves like the Go code; generated Facts.lean.",
         "technique": "Lean 4 proof (round-trip by structural induction with scanner lemmas; composition with C02) + differential correspondence",
         "design_ref": "DESIGN.md §5 C01",
